@@ -22,6 +22,7 @@ type recipeOut struct {
 	approve  [][]byte // governance txs that the shared proposals.json must approve
 	evidence []*bft.DoubleSignEvidence
 	orderTx  []byte // a create-order tx (its hash prefix becomes the order id once included)
+	signers  []int  // who signs this block's certificate (nil = the whole committee)
 }
 
 type recipe struct {
@@ -109,6 +110,24 @@ var recipes = []recipe{
 	{"daoTransfer", "approved-dao-transfer", func(w *world, h uint64) recipeOut {
 		tx := mustTx(fsm.NewDAOTransferTx(env.BLS(0), 3, 1, 1000, env.NetworkID, env.ChainID, 10000, h, false, ""))
 		return recipeOut{txs: [][]byte{tx}, approve: [][]byte{tx}}
+	}},
+	// a governance change that passes the stateless checks and the vote but is refused by the parameter
+	// sanity check AFTER the cached parameter object was modified; the unstake behind it (lower fee) reads
+	// that parameter. Only the proposer ever executes the failing transaction.
+	{"failParamThenUnstake", "failing-param-change-in-proposer-mempool", func(w *world, h uint64) recipeOut {
+		bad := mustTx(fsm.NewChangeParamTxUint64(env.BLS(0), fsm.ParamSpaceVal, fsm.ParamUnstakingBlocks, 0, 1, 1000, env.NetworkID, env.ChainID, 10003, h, ""))
+		k := env.BLS(subject)
+		un := mustTx(fsm.NewUnstakeTx(k, env.Addr(k), env.NetworkID, env.ChainID, 10001, h, ""))
+		return recipeOut{txs: [][]byte{bad, un}, approve: [][]byte{bad}}
+	}},
+	{"failPenaltyThenSend", "failing-param-change-in-proposer-mempool", func(w *world, h uint64) recipeOut {
+		bad := mustTx(fsm.NewChangeParamTxUint64(env.BLS(0), fsm.ParamSpaceVal, fsm.ParamEarlyWithdrawalPenalty, 150, 1, 1000, env.NetworkID, env.ChainID, 10003, h, ""))
+		return recipeOut{txs: [][]byte{bad, sendFee(10, 11, 1003, 10001, h)}, approve: [][]byte{bad}}
+	}},
+	// the certificate of this block is signed by a minimal quorum: the next block's begin-block sees a
+	// non-signer (reward percents reduced in place, non-sign counters)
+	{"sendPartialQC", "certificate-with-non-signer", func(w *world, h uint64) recipeOut {
+		return recipeOut{txs: [][]byte{sendFee(10, 11, 1004, 10000, h)}, signers: []int{0, 1, 2, 4}} // everybody but the subject (3): a quorum in every reachable committee
 	}},
 	// >= 16 pending state writes make Store.Root() take the parallel tree commit
 	{"manyWrites", "parallel-smt-commit", func(w *world, h uint64) recipeOut {
